@@ -18,6 +18,8 @@ import (
 	"path/filepath"
 	"sort"
 	"time"
+
+	"github.com/mattn/go-runewidth"
 )
 
 type verifReq struct {
@@ -36,7 +38,33 @@ type verifReq struct {
 	IDs     []string          `json:"ids,omitempty"`
 	Updates map[string]string `json:"updates,omitempty"`
 	Agent   string            `json:"agent,omitempty"`
+	All     bool              `json:"all,omitempty"`
+	Ready   bool              `json:"ready,omitempty"`
+	Color   bool              `json:"color,omitempty"`
+	Line    *verifLineReq     `json:"line,omitempty"`
 }
+
+// verifLineReq carries the arguments of formatTreeLine (strings are base64).
+type verifLineReq struct {
+	Prefix        string   `json:"prefix"`
+	Connector     string   `json:"connector"`
+	ShowConnector bool     `json:"show_connector"`
+	Icon          string   `json:"icon"`
+	ID            string   `json:"id"`
+	Title         string   `json:"title"`
+	Annotations   []string `json:"annotations"`
+	Blocker       string   `json:"blocker"`
+	IsEpic        bool     `json:"is_epic"`
+	State         string   `json:"state"`
+	IsReady       bool     `json:"is_ready"`
+}
+
+func verifB64(s string) (string, error) {
+	b, err := base64.StdEncoding.DecodeString(s)
+	return string(b), err
+}
+
+func verifEnc(s string) string { return base64.StdEncoding.EncodeToString([]byte(s)) }
 
 type verifTime []int64 // [unix seconds, nanoseconds]; nil = unparsable
 
@@ -307,6 +335,83 @@ func verifHandle(req verifReq) (interface{}, error) {
 			} else {
 				out = append(out, base64.StdEncoding.EncodeToString([]byte(v)))
 			}
+		}
+		return out, nil
+	}
+	switch req.Op {
+	case "tree":
+		events, err := readEvents(verifPathOf(req))
+		if err != nil {
+			return nil, err
+		}
+		graph, err := replayEvents(events)
+		if err != nil {
+			return nil, err
+		}
+		if req.Epic != "" {
+			epic := graph.Tasks[req.Epic]
+			if epic == nil || !epic.IsEpic {
+				return nil, fmt.Errorf("no such epic: %s", req.Epic)
+			}
+		}
+		roots := buildListRoots(graph, req.All, req.Ready, req.Epic)
+		var buf bytes.Buffer
+		for i, root := range roots {
+			renderNode(&buf, root, "", i == len(roots)-1, true, graph, req.Repo, req.Color, nil, req.Width)
+		}
+		rows := []string{}
+		text := buf.String()
+		if text != "" {
+			for _, row := range bytes.Split([]byte(text[:len(text)-1]), []byte("\n")) {
+				rows = append(rows, verifEnc(string(row)))
+			}
+		}
+		return map[string]interface{}{"rows": rows, "raw": verifEnc(text)}, nil
+	case "fmtline":
+		l := req.Line
+		if l == nil {
+			return nil, fmt.Errorf("line required")
+		}
+		dec := func(v string) string { out, _ := verifB64(v); return out }
+		anns := []string{}
+		for _, a := range l.Annotations {
+			anns = append(anns, dec(a))
+		}
+		task := &Task{ID: dec(l.ID), IsEpic: l.IsEpic, State: l.State}
+		line := formatTreeLine(dec(l.Prefix), dec(l.Connector), l.ShowConnector, dec(l.Icon), dec(l.ID), dec(l.Title), anns, dec(l.Blocker), task, l.IsReady, req.Color, req.Width)
+		return map[string]interface{}{"line": verifEnc(line), "visible": visibleLen(line)}, nil
+	case "runewidth":
+		out := []interface{}{}
+		for _, s := range req.Strs {
+			v, err := verifB64(s)
+			if err != nil {
+				return nil, err
+			}
+			widths := []int{}
+			for _, r := range v {
+				widths = append(widths, runewidth.RuneWidth(r))
+			}
+			out = append(out, map[string]interface{}{"runes": widths, "string": runewidth.StringWidth(v), "visible": visibleLen(v)})
+		}
+		return out, nil
+	case "truncate":
+		out := []string{}
+		for _, s := range req.Strs {
+			v, err := verifB64(s)
+			if err != nil {
+				return nil, err
+			}
+			out = append(out, verifEnc(truncateToWidth(v, req.Width)))
+		}
+		return out, nil
+	case "abbreviate":
+		out := []string{}
+		for _, s := range req.Strs {
+			v, err := verifB64(s)
+			if err != nil {
+				return nil, err
+			}
+			out = append(out, verifEnc(abbreviate(v, req.Width)))
 		}
 		return out, nil
 	}
